@@ -1,6 +1,7 @@
 package main
 
 import (
+	"strings"
 	"crypto/sha256"
 	"bytes"
 	"encoding/base64"
@@ -418,6 +419,7 @@ func runC04(c *mon.Ctx) {
 		}
 	}
 	c04DuplicateMembers(c)
+	c04RequiredMembers(c)
 	c.Floor("hash_failing_cases", 200)
 	c.Floor("hash_matching_cases", 100)
 	c.Floor("redactable_only_cases", 100)
@@ -427,6 +429,95 @@ func runC04(c *mon.Ctx) {
 // "unsigned") past the hash check as a second member of the same name, counting on different parts of the parser
 // reading different copies. Whatever the parser makes of such a text (refuse it, or keep the redacted form), the altered
 // content must not surface under the original event's ID with the origin's signature intact.
+// c04RequiredMembers: an event whose "type" or "content" is null or missing, correctly hashed and signed by its sender.
+// The parser may refuse it (an event has a string type and an object content). If it returns an event, every field is
+// intact: what the event says and what its redacted form - the thing the event ID and the signatures are taken over -
+// says about type and content is what was received, not a value made up in its place.
+func c04RequiredMembers(c *mon.Ctx) {
+	r := c.Rand("required-members")
+	n := c.Scale(3, 200)
+	for _, ver := range sortedVersions() {
+		t := ref.Traits(string(ver))
+		if t == nil || ver == gmsl.RoomVersionPseudoIDs {
+			continue
+		}
+		impl := gmsl.MustGetRoomVersion(ver)
+		for k := 0; k < n; k++ {
+			ps := genProto(r, t)
+			ps.Sender, ps.RoomID = "@alice:origin.example", "!room:origin.example"
+			if t.Domainless {
+				ps.RoomID = "!aGVsbG9oZWxsb2hlbGxvaGVsbG9oZWxsb2hlbGxvaGV"
+			}
+			ev, err := buildEvent(ver, ps, serverIdentity("origin.example"), baseTime)
+			if err != nil {
+				continue
+			}
+			for _, variant := range []string{"type-null", "type-missing", "content-null", "content-missing"} {
+				tv := ref.MustParse(ev.JSON())
+				tv.Del("unsigned")
+				switch variant {
+				case "type-null":
+					tv.Set("type", ref.NullV())
+				case "type-missing":
+					tv.Del("type")
+				case "content-null":
+					tv.Set("content", ref.NullV())
+				case "content-missing":
+					tv.Del("content")
+				}
+				tv = rehashAndSign(tv, t)
+				text := gen.Plain().Bytes(tv)
+				c.Case("required-member:"+variant+":"+string(ver), map[string]any{"version": ver, "event": string(text)}, func() {
+					c.NontrivialBytes(append([]byte(string(ver)+"|req|"+variant+"|"), text...))
+					c.Count("required_member_cases")
+					var p gmsl.PDU
+					var err error
+					site, msg, pan := mon.Guard(func() { p, err = impl.NewEventFromUntrustedJSON(text) })
+					if pan {
+						c.Failf("untrusted:panic:"+site, "NewEventFromUntrustedJSON panics: %s", msg)
+						return
+					}
+					if err != nil {
+						c.Count("required_member_refused")
+						return
+					}
+					got := ref.MustParse(p.JSON())
+					key := strings.SplitN(variant, "-", 2)[0]
+					if !ref.Equal(orNull(got.Get(key)), orNull(tv.Get(key))) || (got.Get(key) == nil) != (tv.Get(key) == nil) {
+						c.Failf("untrusted:accepted-event-altered:"+variant, "v%s: the parser accepts an event with %s and returns one whose %q is %s\n%s", ver, variant, key, describeOrAbsent(got.Get(key)), text)
+						return
+					}
+					var red []byte
+					site, msg, pan = mon.Guard(func() { red, err = impl.RedactEventJSON(p.JSON()) })
+					if pan || err != nil {
+						c.Failf("untrusted:accepted-event-not-redactable:"+variant, "v%s: the parser accepts an event with %s that cannot be redacted (%v %s %s)", ver, variant, err, site, msg)
+						return
+					}
+					rv := ref.MustParse(red)
+					want := ref.Redact(t.Redaction, tv)
+					if (rv.Get(key) == nil) != (want.Get(key) == nil) || (key == "type" && !ref.Equal(orNull(rv.Get(key)), orNull(want.Get(key)))) {
+						c.Failf("untrusted:accepted-event-redacts-to-made-up-"+key+":"+variant, "v%s: the parser accepts an event with %s; its redacted form, which the event ID and the signature check are computed over, has %q = %s where the redaction algorithm leaves %s\n%s", ver, variant, key, describeOrAbsent(rv.Get(key)), describeOrAbsent(want.Get(key)), text)
+					}
+				})
+			}
+		}
+	}
+}
+
+func orNull(v *ref.Value) *ref.Value {
+	if v == nil {
+		return ref.NullV()
+	}
+	return v
+}
+
+func describeOrAbsent(v *ref.Value) string {
+	if v == nil {
+		return "absent"
+	}
+	return gen.Describe(v)
+}
+
 func c04DuplicateMembers(c *mon.Ctx) {
 	r := c.Rand("duplicates")
 	id := gen.NewIdentity(c.RandShared("id"), "a.example", "ed25519:k1")
